@@ -82,7 +82,43 @@ def detect(patch, prop, extra):
         shutil.rmtree(out_dir, ignore_errors=True)
 
 
+def detect_all(extra):
+    """regression run: every seeded change against its check; results to selftest_results/seeded.json"""
+    results = []
+    for seed_dir in sorted(glob.glob("/verif/seeded/*/")):
+        meta = json.load(open(os.path.join(seed_dir, "meta.json"), encoding="utf-8"))
+        prop = meta["property"]
+        out_dir = tempfile.mkdtemp(prefix="seed-detect-")
+        code, out = sh(["git", "-C", "/repo", "apply", os.path.join(seed_dir, "patch.diff")])
+        if code != 0:
+            results.append({"id": meta["id"], "property": prop, "status": "PATCH-DOES-NOT-APPLY"})
+            continue
+        try:
+            code, out = sh([PY, "/verif/check.py", prop] + extra, env=dict(os.environ, VERIF_OUT=out_dir), timeout=7200)
+        finally:
+            sh(["git", "-C", "/repo", "checkout", "--", "."])
+            shutil.rmtree(out_dir, ignore_errors=True)
+        clauses = sorted({line.split("clause=")[1].split(" ")[0] for line in out.splitlines()
+                          if line.strip().startswith("clause=")})
+        summary = [line for line in out.splitlines() if line.startswith("property=")]
+        failing = summary[-1].split("failing=")[1].split(" ")[0] if summary else "?"
+        detected = code == 1 and f"VIOLATION property={prop}" in out
+        entry = {"id": meta["id"], "property": prop, "status": "detected" if detected else "MISSED", "exit": code,
+                 "failing_runs": failing, "clauses": clauses, "unstable_replay": "UNSTABLE-REPLAY" in out,
+                 "harness_error": "HARNESS-ERROR" in out}
+        print(json.dumps(entry), flush=True)
+        results.append(entry)
+    os.makedirs("/verif/selftest_results", exist_ok=True)
+    with open("/verif/selftest_results/seeded.json", "w", encoding="utf-8") as stream:
+        json.dump(results, stream, indent=1)
+    missed = [r for r in results if r["status"] != "detected"]
+    print(f"SEEDED: {len(results) - len(missed)}/{len(results)} detected")
+    return 0 if not missed else 1
+
+
 if __name__ == "__main__":
+    if sys.argv[1] == "detect-all":
+        sys.exit(detect_all(sys.argv[2:]))
     if sys.argv[1] == "verify":
         sys.exit(verify(sys.argv[2], sys.argv[3]))
     if sys.argv[1] == "detect":
